@@ -29,11 +29,23 @@ def ArrOf (v : Val) (k : RKind) : Prop :=
 inductive VTy where
   | sc (k : RKind)
   | sl (k : RKind)
+  | anys               -- `[]interface{}` as an array literal builds it: nothing is claimed about the elements
   deriving DecidableEq
 
 def ValOfV (v : Val) : VTy → Prop
   | .sc k => ValOfK v k
   | .sl k => ArrOf v k
+  | .anys => ∃ xs, v = .arr .iface xs
+
+def VTy.isSlice : VTy → Bool
+  | .sl _ | .anys => true
+  | .sc _ => false
+
+theorem arr_of_sliceV {v : Val} {V : VTy} (hV : V.isSlice = true) (hv : ValOfV v V) : ∃ et xs, v = .arr et xs := by
+  cases V with
+  | sc k => cases hV
+  | sl k => obtain ⟨et, xs, rfl, _, _⟩ := hv; exact ⟨_, _, rfl⟩
+  | anys => obtain ⟨xs, rfl⟩ := hv; exact ⟨_, _, rfl⟩
 
 /-- the element kind of a slice-of-scalars type -/
 def sliceElemKind (t : OTy) : Option RKind :=
@@ -44,8 +56,20 @@ def sliceElemKind (t : OTy) : Option RKind :=
     | _ => none
   | none => none
 
+/-- `[]interface{}` -/
+def isAnySlice (t : OTy) : Bool :=
+  match t with
+  | some ty =>
+    match ty.core with
+    | .slice e => e.kind == .iface
+    | _ => false
+  | none => false
+
 def vtyOf (t : OTy) : Option VTy :=
-  if t.kind.isScalar then some (.sc t.kind) else (sliceElemKind t).map .sl
+  if t.kind.isScalar then some (.sc t.kind)
+  else match sliceElemKind t with
+    | some k => some (.sl k)
+    | none => if isAnySlice t then some .anys else none
 
 theorem vtyOf_scalar {t : OTy} (h : ScalarT t) : vtyOf t = some (.sc t.kind) := by
   unfold vtyOf
@@ -57,7 +81,9 @@ theorem vtyOf_sc {t : OTy} {k : RKind} (h : vtyOf t = some (.sc k)) : ScalarT t 
   by_cases hs : t.kind.isScalar = true
   · rw [if_pos hs] at h; cases h; exact ⟨hs, rfl⟩
   · rw [if_neg hs] at h
-    cases hk : sliceElemKind t <;> rw [hk] at h <;> cases h
+    cases hk : sliceElemKind t <;> rw [hk] at h <;> simp only [] at h
+    · split at h <;> cases h
+    · cases h
 
 theorem vtyOf_sl {t : OTy} {k : RKind} (h : vtyOf t = some (.sl k)) : sliceElemKind t = some k := by
   unfold vtyOf at h
@@ -65,7 +91,7 @@ theorem vtyOf_sl {t : OTy} {k : RKind} (h : vtyOf t = some (.sl k)) : sliceElemK
   · rw [if_pos hs] at h; cases h
   · rw [if_neg hs] at h
     cases hk : sliceElemKind t with
-    | none => rw [hk] at h; cases h
+    | none => rw [hk] at h; simp only [] at h; split at h <;> cases h
     | some k' => rw [hk] at h; cases h; rfl
 
 /-- facts about a slice-of-scalars type -/
@@ -94,6 +120,11 @@ theorem slice_type_facts {t : OTy} {k : RKind} (h : sliceElemKind t = some k) :
   · unfold isArrayT; rw [hd]; simp [OTy.kind, hkind]
   · unfold indexTypeT; rw [hd]; simp only [hkind, Ty.elem?, hc]
   · unfold ScalarT; simp only [OTy.kind, hk, hs]
+
+theorem vtyOf_slice_of {t : OTy} {k : RKind} (hk : sliceElemKind t = some k) : vtyOf t = some (.sl k) := by
+  unfold vtyOf
+  obtain ⟨ty, e, rfl, _, _, _, _, hkind⟩ := sliceElemKind_facts hk
+  simp [OTy.kind, hkind, RKind.isScalar, hk]
 
 /-! ### evaluation judgement for the extended fragment -/
 
@@ -229,10 +260,7 @@ theorem spec2_index (hi : E .index) (cfg : CheckCfg) (c : SCfg) (cs : List OTy) 
       obtain ⟨his, hii⟩ := hidx it hsi
       obtain ⟨ki, hki, _⟩ := (isIntegerT_scalar his).1 hii
       obtain ⟨_, et, hidxT, hek, hes⟩ := slice_type_facts hk
-      have hVx : vtyOf t = some (.sl k) := by
-        unfold vtyOf
-        obtain ⟨ty, e, rfl, _, _, _, _, hkind⟩ := sliceElemKind_facts hk
-        simp [OTy.kind, hkind, RKind.isScalar, hk]
+      have hVx : vtyOf t = some (.sl k) := vtyOf_slice_of hk
       obtain ⟨e1, _, ev1⟩ := ihx t (.sl k) hsx hVx st hst
       have hst1 := visit_colls cfg x st
       rcases hxv : visit cfg x st with ⟨x', t', st1⟩
@@ -284,15 +312,15 @@ theorem spec2_index (hi : E .index) (cfg : CheckCfg) (c : SCfg) (cs : List OTy) 
           | ok v => rw [hfe] at hf; exact hf
           | error e => rw [hfe] at hf; exact hf
 
-theorem lengthV_ok {v : Val} {V : VTy} (hV : V = .sc .string ∨ ∃ k, V = .sl k) (hv : ValOfV v V) :
+theorem lengthV_ok {v : Val} {V : VTy} (hV : V = .sc .string ∨ V.isSlice = true) (hv : ValOfV v V) :
     ∃ n, lengthV v = .ok n := by
-  rcases hV with rfl | ⟨k, rfl⟩
+  rcases hV with rfl | hsl
   · obtain ⟨x, rfl⟩ := hv; exact ⟨_, rfl⟩
-  · obtain ⟨et, xs, rfl, _, _⟩ := hv; exact ⟨_, rfl⟩
+  · obtain ⟨et, xs, rfl⟩ := arr_of_sliceV hsl hv; exact ⟨_, rfl⟩
 
 theorem spec2_len (cfg : CheckCfg) (c : SCfg) (cs : List OTy) (m : Meta) (a : Node)
     (iha : Spec2 E cfg c cs a)
-    (ha : ∀ t, synth cfg cs a = some t → ∃ V, vtyOf t = some V ∧ (V = .sc .string ∨ ∃ k, V = .sl k)) :
+    (ha : ∀ t, synth cfg cs a = some t → ∃ V, vtyOf t = some V ∧ (V = .sc .string ∨ V.isSlice = true)) :
     Spec2 E cfg c cs (.builtin m "len" [a]) := by
   intro τ V hs hV st hst
   simp (config := {decide := true}) only [synth, if_true] at hs
@@ -362,17 +390,13 @@ theorem strict_binary2 {P : Ctx → Prop} (c : SCfg) (l r : Node) (Vl Vr V : VTy
     | error e => exact h2
     | ok b => exact htail a b s2 h1 h2
 
-theorem vtyOf_slice_of {t : OTy} {k : RKind} (hk : sliceElemKind t = some k) : vtyOf t = some (.sl k) := by
-  unfold vtyOf
-  obtain ⟨ty, e, rfl, _, _, _, _, hkind⟩ := sliceElemKind_facts hk
-  simp [OTy.kind, hkind, RKind.isScalar, hk]
 
 /-- `x in xs` / `x not in xs` for a slice `xs` -/
 theorem spec2_in (cfg : CheckCfg) (c : SCfg) (cs : List OTy) (m : Meta) (op : String) (l r : Node)
     (hop : op = "in" ∨ op = "not in")
     (ihl : Spec2 E cfg c cs l) (ihr : Spec2 E cfg c cs r)
     (hl : ∀ t, synth cfg cs l = some t → ∃ V, vtyOf t = some V)
-    (hr : ∀ t, synth cfg cs r = some t → ∃ k, sliceElemKind t = some k) :
+    (hr : ∀ t, synth cfg cs r = some t → ∃ Vr, vtyOf t = some Vr ∧ Vr.isSlice = true) :
     Spec2 E cfg c cs (.binary m op l r) := by
   intro τ V hs hV st hst
   simp only [synth] at hs
@@ -386,14 +410,14 @@ theorem spec2_in (cfg : CheckCfg) (c : SCfg) (cs : List OTy) (m : Meta) (op : St
       simp only [] at hs
       have hrule := toOption'_some hs
       obtain ⟨Vl, hVl⟩ := hl lt hsl
-      obtain ⟨k, hk⟩ := hr rt hsr
+      obtain ⟨Vr, hVr, hVrs⟩ := hr rt hsr
       obtain ⟨e1, _, ev1⟩ := ihl lt Vl hsl hVl st hst
       have hst1 := visit_colls cfg l st
       rcases hlv : visit cfg l st with ⟨l', lt', st1⟩
       rw [hlv] at e1 ev1 hst1
       simp only [] at e1 ev1 hst1
       subst e1
-      obtain ⟨e2, _, ev2⟩ := ihr rt (.sl k) hsr (vtyOf_slice_of hk) st1 (hst1.trans hst)
+      obtain ⟨e2, _, ev2⟩ := ihr rt Vr hsr hVr st1 (hst1.trans hst)
       rcases hrv : visit cfg r st1 with ⟨r', rt', st2⟩
       rw [hrv] at e2 ev2
       simp only [] at e2 ev2
@@ -409,25 +433,25 @@ theorem spec2_in (cfg : CheckCfg) (c : SCfg) (cs : List OTy) (m : Meta) (op : St
       simp only [visit, hlv, hrv, hrule, orFail_ok]
       refine ⟨trivial, setKd_kd _ _, ?_⟩
       intro ctx hctx s
-      have tailok : ∀ (neg : Bool) a b s', ValOfV a Vl → ValOfV b (.sl k) →
+      have tailok : ∀ (neg : Bool) a b s', ValOfV a Vl → ValOfV b Vr →
           match (((SM.lift (inV a b)).bind' fun r => pure (Val.bool (if neg then !r else r)) : SM Val) s').1 with
           | .ok v => ValOfV v (.sc .bool) | .error e => E e := by
         intro neg a b s' _ hb
-        obtain ⟨et, xs, rfl, _, _⟩ := hb
+        obtain ⟨et, xs, rfl⟩ := arr_of_sliceV hVrs hb
         simp only [inV, SM.lift, SM.bind', SM.pure', pure]
         exact ⟨_, rfl⟩
       rcases hop with rfl | rfl
       · show match (eval c ctx (.binary { m with kd := OTy.kind boolTy } "in" l' r') s).1 with
           | .ok v => ValOfV v (.sc .bool) | .error e => E e
         simp (config := {decide := true}) only [eval, bind, if_false, if_true]
-        refine strict_binary2 c l' r' Vl (.sl k) (.sc .bool) ev1 ev2 _ ?_ ctx hctx s
+        refine strict_binary2 c l' r' Vl Vr (.sc .bool) ev1 ev2 _ ?_ ctx hctx s
         intro a b s' ha hb
         have := tailok false a b s' ha hb
         simpa using this
       · show match (eval c ctx (.binary { m with kd := OTy.kind boolTy } "not in" l' r') s).1 with
           | .ok v => ValOfV v (.sc .bool) | .error e => E e
         simp (config := {decide := true}) only [eval, bind, if_false, if_true]
-        refine strict_binary2 c l' r' Vl (.sl k) (.sc .bool) ev1 ev2 _ ?_ ctx hctx s
+        refine strict_binary2 c l' r' Vl Vr (.sc .bool) ev1 ev2 _ ?_ ctx hctx s
         intro a b s' ha hb
         have := tailok true a b s' ha hb
         simpa using this
